@@ -1,7 +1,7 @@
 (* Property C12 - no bytes can crash the node.  Only theorem statements, closed by [exact].
    [result_of (run D bs)] is the outcome of the Go decoder D on the byte string bs (ROk / RErr / RPanic),
    [alloc_of (run D bs)] the bytes it allocates through make / append / new driven by the input. *)
-From Virel Require Import Lib.Config Lib.U64 Model.Des Model.Codec Model.CodecBlock Proofs.Des Proofs.DesSafe Proofs.Codec Proofs.CodecSafe Proofs.CodecBlock Proofs.CodecBlockSafe Gen.Params.
+From Virel Require Import Lib.Config Lib.U64 Model.Des Model.Codec Model.CodecBlock Proofs.Des Proofs.DesSafe Proofs.Codec Proofs.CodecSafe Proofs.CodecBlock Proofs.CodecBlockSafe Model.Address Model.Lines Proofs.Lines Gen.Params.
 Open Scope N_scope.
 
 Theorem C12_cfg_ok_mainnet : cfg_ok_codec cfg_mainnet = true. Proof. vm_compute. reflexivity. Qed.
@@ -125,3 +125,86 @@ Theorem C12_stratum_nonce_no_panic : forall bs,
   result_of (run stratum_nonce bs) <> RPanic /\ alloc_of (run stratum_nonce bs) <= 0.
 Proof. exact stratum_nonce_no_panic. Qed.
 Print Assumptions C12_stratum_nonce_no_panic.
+
+(* ---- text-line handlers (Model/Lines.v): what happens to a line AFTER encoding/json, which is not modelled.
+   A token is the raw JSON text of a field value as encoding/json hands it to UnmarshalJSON. *)
+
+(* util/enc/hex.go Hex.UnmarshalJSON: never panics on any token; an accepted token is a quoted even-length hex string
+   (or any two-byte token, which yields the empty value) *)
+Theorem C12_hex_token_no_panic : forall c, hex_unmarshal_json c <> RPanic.
+Proof. exact hex_unmarshal_json_no_panic. Qed.
+Print Assumptions C12_hex_token_no_panic.
+
+Theorem C12_hex_token_accepts : forall c b, hex_unmarshal_json c = ROk b ->
+  (blen c = 2 /\ b = []) \/ (2 < blen c /\ hd 0 c = QUOTE /\ last_byte c = QUOTE /\ hex_decode (middle c) = Some b /\ 2 * blen b = blen c - 2).
+Proof. exact hex_unmarshal_json_accepts. Qed.
+Print Assumptions C12_hex_token_accepts.
+
+(* util/hash.go Hash.UnmarshalJSON: never panics (the slice-to-array conversion always sees 32 bytes); accepts only 66-byte tokens *)
+Theorem C12_hash_token_no_panic : forall c, hash_unmarshal_json c <> RPanic.
+Proof. exact hash_unmarshal_json_no_panic. Qed.
+Print Assumptions C12_hash_token_no_panic.
+
+Theorem C12_hash_token_accepts : forall c b, hash_unmarshal_json c = ROk b -> blen c = 66 /\ blen b = 32.
+Proof. exact hash_unmarshal_json_accepts. Qed.
+Print Assumptions C12_hash_token_accepts.
+
+Theorem C12_address_token_no_panic : forall cfg c, integrated_unmarshal_json cfg c <> RPanic.
+Proof. exact integrated_unmarshal_json_no_panic. Qed.
+Print Assumptions C12_address_token_no_panic.
+
+(* util.ByteTargetToDiff panics exactly on targets that are not 4, 8 or 16 bytes long *)
+Theorem C12_byte_target_panics_iff : forall t,
+  byte_target_to_diff t = RPanic <-> (blen t <> 16 /\ blen t <> 8 /\ blen t <> 4).
+Proof. exact byte_target_panics_iff. Qed.
+Print Assumptions C12_byte_target_panics_iff.
+
+(* blockchain/mergestratum.go, the body of AddStratum's loop: no job (any blob bytes, any target, any job id) makes it panic;
+   a job is accepted only with a target of 4, 8 or 16 bytes and a blob that decodes to exactly one chain *)
+Theorem C12_merge_client_job_no_panic : forall cfg blob target jid, add_stratum_job cfg blob target jid <> SCPanic.
+Proof. exact add_stratum_job_no_panic. Qed.
+Print Assumptions C12_merge_client_job_no_panic.
+
+Theorem C12_merge_client_job_accepts : forall cfg blob target jid j d n,
+  add_stratum_job cfg blob target jid = SCAccept j d n ->
+  (blen target = 4 \/ blen target = 8 \/ blen target = 16) /\ j = jid /\ byte_target_to_diff target = ROk d /\
+  exists m s c, run (dec_blob cfg) blob = MOk m s /\ mb_chains m = [c] /\ n = hid_network c.
+Proof. exact add_stratum_job_accepts. Qed.
+Print Assumptions C12_merge_client_job_accepts.
+
+(* the target-length test is what keeps the loop alive: without it a five-byte target kills the goroutine *)
+Theorem C12_merge_client_unguarded_panics :
+  add_stratum_job_gen cfg_mainnet false (enc_blob witness_blob) [0; 0; 0; 0; 0] [106] = SCPanic
+  /\ add_stratum_job_gen cfg_mainnet true (enc_blob witness_blob) [0; 0; 0; 0; 0] [106] = SCRefuse
+  /\ add_stratum_job_gen cfg_mainnet true (enc_blob witness_blob) [0; 0; 0; 128] [106] = SCAccept [106] 8589934591 3.
+Proof. exact add_stratum_unguarded_panics. Qed.
+Print Assumptions C12_merge_client_unguarded_panics.
+
+(* the whole conversation: whatever the login response and the following lines decode to, neither Client.Start nor
+   AddStratum's loop panics *)
+Theorem C12_merge_client_login_no_panic : forall l, sc_login l <> 2.
+Proof. exact sc_login_no_panic. Qed.
+Print Assumptions C12_merge_client_login_no_panic.
+
+Theorem C12_merge_client_run_no_panic : forall cfg evs st, fst (sc_run cfg st evs) <> 2.
+Proof. exact sc_run_no_panic. Qed.
+Print Assumptions C12_merge_client_run_no_panic.
+
+(* blockchain/bc-stratum.go handleConn: the login line and every later line, for every decoded content *)
+Theorem C12_stratum_login_line_no_panic : forall cfg json_ok method std_ok text, srv_login cfg json_ok method std_ok text <> LPanic.
+Proof. exact srv_login_no_panic. Qed.
+Print Assumptions C12_stratum_login_line_no_panic.
+
+Theorem C12_stratum_line_no_panic : forall cfg json_ok method std_ok nonce blob extra known,
+  srv_line cfg json_ok method std_ok nonce blob extra known <> LPanic.
+Proof. exact srv_line_no_panic. Qed.
+Print Assumptions C12_stratum_line_no_panic.
+
+(* rpc/rpcserver/handler.go + parameter decoding of cmd/virel-node/noderpc.go: envelope, custom-typed parameters,
+   the length test of submit_stake_signature, the transaction decoder of submit_transaction, the address parser *)
+Theorem C12_rpc_body_no_panic : forall cfg, cfg_ok_codec cfg = true ->
+  forall http body_len json_ok jsonrpc method has_params std_ok fields addr ttype top,
+  fields_shape method fields ->
+  rpc_expect cfg http body_len json_ok jsonrpc method has_params std_ok fields addr ttype top <> RPanicX.
+Proof. exact rpc_expect_no_panic. Qed.
+Print Assumptions C12_rpc_body_no_panic.
